@@ -190,12 +190,29 @@ def run_history(case, ctx=None):
                              os.path.join(tmp, f"out{i}"), wf, model_in)
             if r_last[0] != "ok":
                 if i < len(pv) - 1:
-                    # an intermediate prefix of the data cannot be learned
-                    # at all (a partial view - C01's subject): no model file,
-                    # nothing to compare
-                    if ctx:
-                        ctx.count("intermediate_chunk_not_learnable_(C01)")
-                    return
+                    # an intermediate prefix of the data cannot be learned:
+                    # when the same prefix supplied in one run fails too it
+                    # is a partial view (C01's subject) - no model file,
+                    # nothing to compare.  When the one-run route works the
+                    # failure is the history's.
+                    dp = os.path.join(tmp, f"prefix{i}")
+                    os.makedirs(dp)
+                    fp = write_jobs(dp, [j for c2 in pv[:i + 1] for j in c2],
+                                    "job")
+                    learn.SCHED.reseed(case["sched"] + i + 1)
+                    r_pre = guarded(run_dispatch, fp,
+                                    os.path.join(tmp, f"out_prefix{i}"), wf)
+                    if r_pre[0] != "ok":
+                        if ctx:
+                            ctx.count(
+                                "intermediate_prefix_not_learnable_(C01)")
+                        return
+                    raise Violation(
+                        f"chunk {i + 1} of {len(chunks)} "
+                        f"{[len(c) for c in chunks]} fails through the saved "
+                        f"model with {r_last[1:]} but the same "
+                        f"{sum(len(c) for c in chunks[:i + 1])} jobs in one "
+                        f"run give a diagram")
                 break
             model_in = r_last[1][1]
         if r_all[0] != "ok" or r_last[0] != "ok":
